@@ -709,7 +709,7 @@ pub fn run(c: &mut Ctx) {
     }
     let miri = c.mode == "miri";
     let fam = "diff";
-    let total = c.total(50_000, 5_000_000);
+    let total = c.total(400_000, 8_000_000);
     for idx in c.cases(fam, total) {
         if c.out_of_time() {
             break;
@@ -731,7 +731,7 @@ pub fn run(c: &mut Ctx) {
         }
     }
     let fam = "build";
-    let total = c.total(8_000, 800_000);
+    let total = c.total(60_000, 1_200_000);
     for idx in c.cases(fam, total) {
         if c.out_of_time() {
             break;
